@@ -196,6 +196,26 @@ def proof_obligations(pid):
     return res
 
 
+def coqchk(pid, ob):
+    """Independent re-check of the compiled property files (and everything they depend on) with
+    coqchk; -o prints the axioms the whole context relies on."""
+    mods = ["Kit.Properties." + f[len("Properties/"):-2] for f in ob["files"]]
+    with Lock("coq"):
+        rc, out, wall = sh(["coqchk", "-silent", "-o", "-Q", ".", "Kit"] + mods, cwd=COQ, timeout=3 * 3600)
+    m = re.search(r"\* Axioms:(.*?)\n\s*\n\* Constants", out, re.S)
+    axioms = [l.strip() for l in (m.group(1) if m else "").splitlines() if l.strip() and l.strip() != "<none>"]
+    res = {"rc": rc, "wall_s": round(wall, 1), "axioms": axioms, "tail": out[-800:]}
+    bad = [a for a in axioms if a.split(".")[-1] not in AXIOM_WHITELIST and a not in AXIOM_WHITELIST
+           and not any(a.startswith(p) or ("." + p) in ("." + a) for p in PRIMITIVE_PREFIXES)]
+    if rc != 0:
+        ob["undischarged"].append("coqchk failed (rc=%d)" % rc)
+        ob["discharged"] = 0
+    elif bad:
+        ob["undischarged"].append("coqchk reports non-whitelisted axioms: " + ", ".join(bad[:5]))
+        ob["discharged"] = 0
+    return res
+
+
 def run_shards(outdir, timeout=1800):
     """coqc every cases_*.v shard in parallel; return (failures {idx: verdict}, errors)."""
     shards = sorted(glob.glob(os.path.join(outdir, "cases_*.v")))
@@ -324,6 +344,8 @@ def check_property(pid, tier, seed, replay=None):
     lines, violations = [], []
     # 1. proof obligations
     ob = proof_obligations(pid)
+    if tier == "thorough" and not replay and not ob["undischarged"]:
+        ob["coqchk"] = coqchk(pid, ob)
     # 2. harnesses against /repo's working tree
     replay_case = None
     if replay:
@@ -440,6 +462,7 @@ def finish(pid, tier, seed, t0, ob, summary, cases, failures, cfg, fatal=None, r
             "checker_cmd": "make -C coq Properties/%s.vo && coqc -Q coq Kit coq/Properties/%s.v (Print Assumptions per theorem) + grep gate" % (pid, pid),
             "trusted_base": trusted_base() + cfg.get("trusted_base", []),
             "theorems": ob["theorems"], "undischarged": ob["undischarged"], "axioms": ob["axioms"],
+            "coqchk": ob.get("coqchk"),
             "evaluations": len(cases), "traces_validated_against_impl": len(cases),
             "distinct_nontrivial": (summary or {}).get("distinct_nontrivial", 0),
             "rule": cfg.get("rule", ""),
